@@ -16,6 +16,10 @@ import (
 	"github.com/rs/zerolog/log"
 )
 
+// maxLineLength is the longest message line RETR/TOP will relay; effectively unlimited, since a
+// stored message is bounded by the SMTP maximum message size.
+const maxLineLength = 1 << 30
+
 // State tracks the current mode of our POP3 state machine
 type State int
 
@@ -487,6 +491,8 @@ func (s *Session) sendMessage(msg storage.Message) {
 	}()
 
 	scanner := bufio.NewScanner(reader)
+	// Message lines may be arbitrarily long; do not stop at bufio.MaxScanTokenSize (64 KiB).
+	scanner.Buffer(make([]byte, 0, bufio.MaxScanTokenSize), maxLineLength)
 	for scanner.Scan() {
 		line := scanner.Text()
 		// Lines starting with . must be prefixed with another .
@@ -520,6 +526,8 @@ func (s *Session) sendMessageTop(msg storage.Message, lineCount int) {
 	}()
 
 	scanner := bufio.NewScanner(reader)
+	// Message lines may be arbitrarily long; do not stop at bufio.MaxScanTokenSize (64 KiB).
+	scanner.Buffer(make([]byte, 0, bufio.MaxScanTokenSize), maxLineLength)
 	inBody := false
 	for scanner.Scan() {
 		line := scanner.Text()
